@@ -598,6 +598,8 @@ fn run_history_sync(
     let mut cfg = RunCfg::default();
     cfg.hint_override = hint.clone();
     cfg.log = true;
+    // conflicts reported by later calls must be as truthful as a fresh solver's (C03's oracle)
+    cfg.render = true;
     let mut session = Session::new(&case.u, &cfg);
     let mut seen_c = HashSet::new();
     let mut seen_d = HashSet::new();
@@ -630,7 +632,18 @@ fn run_history_sync(
                             acc.violation(viol("C13", &format!("invalid:{}", rule.kind()), format!("call {i} of history {seq:?}: solution violates {rule:?}"), case, detail(), order));
                         }
                     }
-                    (Outcome::Unsat, Outcome::Unsat) => {}
+                    (Outcome::Unsat, Outcome::Unsat) => {
+                        if i > 0 {
+                            acc.count("conflicts_of_later_calls_checked");
+                            if let Some(pi) = &res.render_panic {
+                                acc.violation(viol("C13", &format!("render-panic-on-reused-solver:{}:{}", pi.stage, pi.site), format!("call {i} of history {seq:?}: rendering the conflict panicked ({} at {})", pi.msg, pi.site), case, detail(), order));
+                            } else if let Some(g) = &res.rendered.graph {
+                                if let Err((sig, what)) = crate::e1::check_graph(&sem, g, acc) {
+                                    acc.violation(viol("C13", &format!("conflict-on-reused-solver:{sig}"), format!("call {i} of history {seq:?}: {what}"), case, detail(), order));
+                                }
+                            }
+                        }
+                    }
                     (Outcome::Panic(pi), _) => acc.violation(viol(
                         "C13",
                         &format!("panic:{}:{}", pi.site, pi.msg),
